@@ -32,13 +32,15 @@ RULES = ['/a', '/a/b', '/a/b/c', '/a/<x>', '/a/<x>/c', '/ab', '/abc', '/a/<v:int
          '/a/b/<w>', '/', '/p/*',        # '/p/*' is a LITERAL rule; remove('/p/*') is the prefix removal of 'p/'
          # _try_merge guards: a wildcard node left with ONE child must not be merged with it (it carries the filter),
          # nor a literal node whose single remaining child is the wildcard node
-         '/i/<id:int>/edit', '/i/<id:int>.json', '/m/<x>', '/m/lit', '/m/<x>/k']
+         '/i/<id:int>/edit', '/i/<id:int>.json', '/m/<x>', '/m/lit', '/m/<x>/k',
+         # rules that literally end in '*' and are spelled exactly like a prefix removal, with routes under the prefix
+         '/a/*', '/a/b*', '/p/<y:path>*']
 MERGE_FAMILY = ['/i/<id:int>/edit', '/i/<id:int>.json', '/m/<x>', '/m/lit', '/m/<x>/k', '/a/<x>/c', '/a/<x>', '/a/b']
 ALT = {'/a/<x>': '/a/<x2>', '/a/<x>/c': '/a/:k/c', '/<z>': '/{zz}'}        # same pattern, other names
 HOOKS = ['/a', '/a/b', '/a/<x>', '/p', '/a/b/c/d', '/ab', '/']
-PREFIXES = ['/a/*', '/a*', '/a/b*', '/*', '/p/*', '/ab*', '/a/b/*', '/zz*']
+PREFIXES = ['/a/*', '/a*', '/a/b*', '/*', '/p/*', '/ab*', '/a/b/*', '/zz*', '/a/*', '/p/*']
 NAMES = ['n1', 'n2', 'n3']
-PATHS = ['/a', '/a/b', '/a/b/c', '/a/q', '/a/q/c', '/a/12', '/ab', '/abc', '/abd', '/p/q', '/p/x/y/e', '/p', '/zz', '/',
+PATHS = ['/a/*', '/a/b*', '/a', '/a/b', '/a/b/c', '/a/q', '/a/q/c', '/a/12', '/ab', '/abc', '/abd', '/p/q', '/p/x/y/e', '/p', '/zz', '/',
          '/a/b/c/d', '/a/b/zz', '/a//c', '/a/b/', '/a/\r/c', '/p/*',
          '/i/5/edit', '/i/5.json', '/i/x/edit', '/i/5', '/m/lit', '/m/zz', '/m/zz/k']
 
@@ -132,6 +134,12 @@ def corpus():
             dict(op='dispatch', path='/keep/5', verb='POST'), dict(op='dispatch', path='/keep/x', verb='GET'),
             dict(op='listing')]
     cs.append(dict(cmds=many + tail, oracle_from=141))
+    # a registered rule that is spelled exactly like a prefix removal: remove('/a/*') still removes the whole branch
+    # (/a/b, /a/<x>, /a/b/c and the literal '/a/*' itself), remove('/a/b*') likewise; names of removed routes go too
+    cs.append(_with_probes([A('/a/b', 1), A('/a/*', 2, name='n1'), A('/a/<x>', 3, name='n2'), A('/a/b/c', 4), A('/ab', 5),
+                            dict(op='remove', rule='/a/*'), A('/a/b', 6), A('/a/b*', 7), A('/a/b/c', 8, name='n3'),
+                            dict(op='remove', rule='/a/b*'), A('/p/q', 9), A('/p/*', 10), dict(op='remove', rule='/p/*')],
+                           full=True))
     # wildcard siblings, filter conflict, shared pattern with other names, method removal
     cs.append(_with_probes([A('/a/<x>', 1), A('/a/<v:int>', 2), A('/a/<x2>', 3, ('POST',)), A('/a/b', 4),
                             dict(op='remove_method', rule='/a/<x>', methods=['GET']), dict(op='remove', rule='/a/<x2>'),
@@ -382,8 +390,27 @@ def _oracle(case, obs):
             P = router.to_pattern(c['rule'])[:-1]
             if any(h.startswith(P) and h != P for h in router.hooks):
                 return None            # inadmissible from here on: outside the property
-        before = a.run(dict(op='listing')) if c['op'] in ('add', 'route_method', 'add_hook') else None
+        before = a.run(dict(op='listing')) if c['op'] in ('add', 'route_method', 'add_hook', 'remove') else None
         res = a.run(c)
+        if c['op'] == 'remove' and res == 0:
+            # the documented meaning of remove(rule): a rule text ending in '*' removes EVERY route whose pattern starts
+            # with the text before the '*' (also when that very text is itself a registered rule); any other rule text
+            # removes exactly the route of that pattern; all other routes, and the names of surviving routes, stay
+            pat = ''.join(map(chr, L.cps(router.to_pattern(c['rule']))))
+            star = pat.endswith('*')
+            gone = (lambda q: q.startswith(pat[:-1])) if star else (lambda q: q == pat)
+            s_ = lambda xs: ''.join(map(chr, xs))
+            after = a.run(dict(op='listing'))
+            want_routes = [s_(r[0]) for r in before['routes'] if not gone(s_(r[0]))]
+            got_routes = [s_(r[0]) for r in after['routes']]
+            if got_routes != want_routes:
+                return 'after %s the routes index lists %s, expected %s (%s)' % (
+                    _show(c), got_routes, want_routes,
+                    'every pattern starting with %r removed' % pat[:-1] if star else 'only %r removed' % pat)
+            want_names = [s_(n[0]) for n in before['named'] if not gone(s_(n[1]['pattern']))]
+            got_names = [s_(n[0]) for n in after['named']]
+            if got_names != want_names:
+                return 'after %s the names are %s, expected %s' % (_show(c), got_names, want_names)
         if before is not None and res in (1, 2, 3, 4, 5, 8):
             # refused by the tree (filter conflict ...) or by the method table: the check runs before any write
             after = a.run(dict(op='listing'))
